@@ -68,9 +68,25 @@ func c09Oracle(cs vshCase, r *vshRun) []vshFinding { //nolint:gocognit,cyclop
 						continue
 					}
 					first[m.ptr] = m.Mid
-					order = append(order, m.ptr)
+					inOrder := false
+					for _, o := range order {
+						inOrder = inOrder || o == m.ptr
+					}
+					if !inOrder {
+						order = append(order, m.ptr)
+					}
 					if c.Call == "CreateOffer" && c.Side == side && c.Err == "" && applied[m.Mid] {
 						add("new-transceiver-reuses-applied-mid|alloc=CreateOffer", fmt.Sprintf("%s: CreateOffer at step %d gave a new transceiver the mid %q, which an earlier applied local or remote description already used", side, c.Step, m.Mid))
+					}
+
+					continue
+				}
+				if m.Mid != old && !applied[old] {
+					// the old mid was provisional: handed out by a CreateOffer whose offer was never applied
+					// (JSEP binds a mid to a transceiver when a description carrying it is applied)
+					first[m.ptr] = m.Mid
+					if m.Mid == "" {
+						delete(first, m.ptr)
 					}
 
 					continue
@@ -91,7 +107,10 @@ func c09Oracle(cs vshCase, r *vshRun) []vshFinding { //nolint:gocognit,cyclop
 				}
 				typ := d.Type
 				for _, t := range order {
-					mid := first[t]
+					mid, has := first[t]
+					if !has {
+						continue
+					}
 					var at []int
 					for i, s := range d.Scan.Sections {
 						if s.HasMid && s.Mid == mid {
@@ -124,8 +143,10 @@ func c09Oracle(cs vshCase, r *vshRun) []vshFinding { //nolint:gocognit,cyclop
 						add(fmt.Sprintf("transceiver-mid-%s|%s|section=%s", kind, typ, other), fmt.Sprintf("%s: mid %q of a transceiver first appeared at index %d; the %s at step %d carries it at index %v (sections %s)", side, mid, want, typ, d.Step, at, vshSecSummary(d.Scan)))
 					}
 				}
-				note(d.Scan)
 			case c.Call == "SetLocalDescription" && c.Side == side && c.Desc >= 0:
+				// positions and the number of existing sections are fixed by applied descriptions only: an
+				// offer that was generated and abandoned binds nothing
+				note(r.Descs[c.Desc].Scan)
 				for _, m := range vshMidList(r.Descs[c.Desc].Scan) {
 					applied[m] = true
 				}
